@@ -9,6 +9,8 @@ use std::fs::{File, OpenOptions};
 use std::io::{Read, Seek, Write};
 use std::path::Path;
 
+const E57_NAMESPACE: &str = "http://www.astm.org/COMMIT/E57/2010-e57-v1.0";
+
 /// Main interface for creating and writing E57 files.
 pub struct E57Writer<T: Read + Write + Seek> {
     pub(crate) writer: PagedWriter<T>,
@@ -92,6 +94,18 @@ impl<T: Write + Read + Seek> E57Writer<T> {
             let ns = &extension.namespace;
             Error::invalid(format!(
                 "An extension using the namespace {ns} is already registered"
+            ))?
+        } else if extension.url.is_empty()
+            || extension.url == E57_NAMESPACE
+            || self.extensions.iter().any(|e| e.url == extension.url)
+        {
+            // XML identifies a namespace by its URL, not by its prefix. A second prefix for
+            // the same URL (or a prefix for the E57 namespace itself or for no namespace
+            // at all) cannot be told apart when reading, records would come back with a
+            // different name.
+            let url = &extension.url;
+            Error::invalid(format!(
+                "The URL '{url}' is empty or already used by another namespace of this file"
             ))?
         } else {
             self.extensions.push(extension);
